@@ -96,6 +96,19 @@ def deep_copy(v):
 
 def call_numpy(it, name, mod, fn, args, kwargs, node, fr):
     from . import imgdom
+    if "where" in kwargs and mod == "numpy" and fn in ("power", "divide", "true_divide", "sqrt", "log", "exp", "multiply", "add", "subtract", "reciprocal",
+                                                        "float_power", "log10", "square"):
+        # ufunc(..., where=m, out=o): computed where m holds, the value of `o` elsewhere (uninitialised without `out`)
+        base = call_numpy(it, name, mod, fn, args, {k: v for k, v in kwargs.items() if k not in ("where", "out")}, node, fr)
+        w_, o_ = kwargs["where"], kwargs.get("out")
+        if isinstance(base, (Val, Unk)) and isinstance(w_, (Val, Unk)):
+            other = to_term(o_) if o_ is not None else call("uninitialised", const(getattr(node, "lineno", 0)))
+            r_ = Val(mk("ite", to_term(w_), to_term(base), other), space=getattr(base, "space", None))
+            ax_ = imgdom.bcast_axes(getattr(base, "axes", None), getattr(w_, "axes", None))
+            if ax_ is not None:
+                r_.axes = ax_
+            return r_
+        raise Unsupported(f"numpy.{fn} with where= on a value that is not element-wise", node)
     if fn in ("array", "asarray", "stack") and args and isinstance(args[0], Seq):
         r_ = imgdom.stack_from_seq(args[0])
         if r_ is not None:
